@@ -29,7 +29,7 @@ ASSUMPTIONS = ['the lookup and graph clauses are pure functions of their input a
                'flows per class) are the simulation targets',
                'Splitter copies are shallow: only scalar header fields are required to be independent',
                'flow ids are non-negative']
-PROBES = ['table_replaced', 'split_packet_with_headers', 'sub_demux', 'sub_hub', 'sub_split', 'sub_fattree', 'empty_table', 'unknown_flow_to_default', 'unknown_flow_nowhere',
+PROBES = ['outputs_added_after_construction', 'table_replaced', 'split_packet_with_headers', 'sub_demux', 'sub_hub', 'sub_split', 'sub_fattree', 'empty_table', 'unknown_flow_to_default', 'unknown_flow_nowhere',
           'end_device_hit', 'hub_through_wires', 'hub_add_endpoint', 'two_hubs', 'hub_nested_reply', 'fattree_decoy', 'fattree_k2', 'fattree_k4', 'fattree_k6', 'fattree_tcp',
           'fattree_many_to_one', 'server_WFQ', 'server_DRR', 'server_SP', 'server_VirtualClock', 'ack_class_delivered']
 
@@ -46,6 +46,8 @@ def gen(rng, tier):
                 'fib': [[f, rng.randint(0, max(0, nouts))] for f in range(8) if rng.random() < 0.6] if rng.random() < 0.85 else [],
                 'ends': [f for f in range(8) if rng.random() < 0.2],
                 'server': rng.choice(['WFQ', 'DRR', 'SP', 'VirtualClock']), 'buffer': rng.choice([4, 64])}
+        if kind == 'FlowDemux' and nouts >= 1 and rng.random() < 0.3:
+            case['late_outs'] = rng.randrange(nouts)
         if kind in ('FIBDemux', 'FairSwitch') and rng.random() < 0.35:
             # the table is replaced while traffic flows: routes appear, move and disappear
             case['fib2'] = [rng.randrange(len(flows) + 1), [[f, rng.randint(0, max(0, nouts))] for f in range(8) if rng.random() < 0.6]]
@@ -95,7 +97,15 @@ def run_demux(w, case):
     fib = dict((f, p) for f, p in case.get('fib', []))
     ends = dict((f, Rec(w, 'end%d' % f)) for f in case.get('ends', []))
     if kind == 'FlowDemux':
-        d = FlowDemux(outs, dflt)
+        k0 = case.get('late_outs')
+        if k0 is not None and k0 < len(outs):
+            # the output list handed to the constructor grows afterwards (ports plugged in later)
+            lst = list(outs[:k0])
+            d = FlowDemux(lst, dflt)
+            lst.extend(outs[k0:])
+            stats['outputs_added_after_construction'] = 1
+        else:
+            d = FlowDemux(outs, dflt)
         entry = d
     elif kind == 'FIBDemux':
         d = FIBDemux(outs=outs, ends=dict(ends), fib=fib, default_out=dflt)
